@@ -42,8 +42,15 @@ def _reject_engine_exception(e):
     import re as _re
     call_mismatch = isinstance(e, TypeError) and _re.search(r"got an unexpected keyword argument|takes \d+ positional argument|"
                                                             r"missing \d+ required positional argument|got multiple values for argument", msg)
-    model_attr = isinstance(e, AttributeError) and _re.search(r"'(ndarray|SymInt|SymReal|SymBool|SymStr|dtype|Buffer)' object has no attribute|"
+    model_attr = isinstance(e, AttributeError) and _re.search(r"'(ndarray|dtype|Buffer)' object has no attribute|"
                                                               r"module 'dverif\.symnp' has no attribute|module 'numpy' has no attribute", msg)
+    m_sc = isinstance(e, AttributeError) and _re.search(r"'(SymInt|SymReal|SymBool|SymStr)' object has no attribute '(\w+)'", msg)
+    if m_sc:
+        # a symbolic scalar stands for a NumPy scalar: the missing attribute is a gap of the model only if the REAL NumPy
+        # scalar has it; otherwise the code under verification really does this to a NumPy scalar
+        rn = loader.REAL_NUMPY
+        real = {"SymInt": "int64", "SymReal": "float64", "SymBool": "bool_", "SymStr": "str_"}[m_sc.group(1)]
+        model_attr = bool(rn is None or hasattr(getattr(rn, real)(0), m_sc.group(2)))
     if model_attr and "in1d" in msg:
         model_attr = None           # mirrored on purpose: the installed NumPy has no in1d (libcheck item 4)
     if call_mismatch or model_attr:
